@@ -35,7 +35,8 @@ claim("C04",
       "task execution); TLC validates each event log against Batches_Trace.tla (P: clauses = the five clauses of C04, "
       "including digest equality with the sequential native-client run).  The same comparison is made with the REAL multiprocessing "
       "client (2-3 worker processes), and the real native / multiprocessing client objects are validated against ClientContract.tla - "
-      "the contract Batches.tla assumes of a client (extension, reported as drift only).",
+      "the contract Batches.tla assumes of a client: a P: clause for elfi's own native and multiprocessing clients, drift only for dask; a sampler advanced by hand "
+      "under another objective and abandoned with batches outstanding, then asked to sample(), returns the fresh sequential result and leaves no task.",
       "Small-scope bounds on MaxPar / consumed batches / rounds at design level (thorough adds TLC simulation beyond them); "
       "dask/ipyparallel clusters are not available; digests are sha256 of the returned arrays.",
       "TLA+ design model checked by TLC (safety+liveness) + TLC trace validation of scheduled-client event logs", "5/C04")
@@ -236,10 +237,14 @@ claim("C09",
       "bit-exactly which earlier state each proposal was built from; Metropolis_Trace.tla lets TLC infer accept/reject of every step and "
       "checks proposal = current + sigma*z, state = previous or proposal, accept iff u below the ratio and the proposed log-target finite "
       "(computed by TLC in integers on k*ln2 lattice targets), exact length and warm-up slice, determinism, finite outputs; Nuts_Trace.tla "
-      "checks length, determinism, finite outputs (P:) and binds real runs to NutsTree (M:).",
+      "checks length, determinism, finite outputs (P:) and binds real runs to NutsTree (M:).  Clause e (moments of standard targets) is judged "
+      "as a statistical relation on logged oracle fields: long seeded runs of both kernels on four standard targets (uniform square with hard "
+      "boundaries, truncated normal, correlated Gaussian, independent normals), Moments_Trace.tla accepts |average - exact| <= 6 batch-means "
+      "standard errors + 0.002.",
       "Trusted: numpy RandomState replay order; harness float evaluation of exp(dt) < u off the lattice (cross-checked by integer arithmetic "
       "on lattice targets); frame inspection for NUTS leaf outcomes (M: only).  Assumes n_samples >= 1 and a finite log-target at the start.  "
-      "The statistical clause (reproduces the target's moments) is not decidable by this technique and not claimed.",
+      "The statistical clause (reproduces the target's moments) is not a state-space argument: it is a statistical test on deterministic seeded runs "
+      "wrapped in the trace interface (false-alarm probability < 1e-5 per statistic; blind to biases below the tolerance of the run length).",
       "TLA+ design models checked by TLC + trace validation with TLC-inferred accept/reject", "5/C09")
 
 claim("C08",
@@ -283,7 +288,7 @@ claim("C16",
       "1e-6, big-natural rationals 5e-8).",
       "Small-scope; values are ids mapped through strictly increasing tables, means judged only on id*2^-sh tables; interval ends judged by "
       "the quantile definition (both neighbours accepted on exact boundaries); reading back = python csv/json/pickle; scalar parameter "
-      "columns only; 'ESS = its documented estimator' is an M: clause (DRIFT only) per the scope decision of DESIGN 5/C16; affine maps "
+      "columns only; 'ESS = the estimator its docstring cites (BDA3 / Stan 2.14)' is a P: clause (scope decision of DESIGN 5/C16 revised, see 10.5 round 4); affine maps "
       "restricted to +-2^k x + c with integer c.",
       "TLA+ design models checked by TLC + TLC trace validation of logged real calls", "5/C16")
 
